@@ -4,7 +4,7 @@
    (Model/Binder.v, tied to the code by the correspondence run); O ranges over every behaviour of the
    library oracles (format registry, UnmarshalText of registered formats, strconv.ParseFloat); valid is the
    verdict of the validate library on the bound value (None = accepted). *)
-From V Require Import Bytes Decimal Binder BinderSpec DecimalProofs BinderProofs BinderClauses BinderMulti.
+From V Require Import Bytes Decimal Binder BinderSpec DecimalProofs BinderProofs BinderClauses BinderMulti BinderFile BinderFileProofs.
 From Coq Require Import Permutation.
 Local Open Scope nat_scope.
 
@@ -207,3 +207,29 @@ Theorem C03_rejected_names_any_order : forall judge ps ps', Permutation ps ps' -
   forall n, In n (rejected_names judge ps) <-> In n (rejected_names judge ps').
 Proof. exact rejected_names_any_order. Qed.
 Print Assumptions C03_rejected_names_any_order.
+
+(* type file (in: formData): the model of the file branch equals the specification (the file carried = the first
+   part of a multipart body with the declared name and a file name) *)
+Theorem C03_file_model_meets_spec : forall required name rq,
+  bind_file required name rq = spec_file required name rq.
+Proof. exact file_model_meets_spec. Qed.
+Print Assumptions C03_file_model_meets_spec.
+
+(* a required file the request does not carry is refused (the handler does not run), in particular on every
+   urlencoded form body *)
+Theorem C03_file_required_missing_refused : forall name rq,
+  carried_file name rq = None ->
+  bind_file true name rq = FRefused parse_error_status.
+Proof. exact file_required_missing_refused. Qed.
+Print Assumptions C03_file_required_missing_refused.
+
+Theorem C03_file_required_urlencoded_refused : forall name parts,
+  bind_file true name (FReq FUrlencoded parts) = FRefused parse_error_status.
+Proof. exact file_required_urlencoded_refused. Qed.
+Print Assumptions C03_file_required_urlencoded_refused.
+
+Theorem C03_file_carried_is_received : forall required name rq f d,
+  carried_file name rq = Some (f, d) ->
+  bind_file required name rq = FGot f d.
+Proof. exact file_carried_is_received. Qed.
+Print Assumptions C03_file_carried_is_received.
